@@ -28,11 +28,19 @@ def one(sid):
             out["_documented_miss"] = meta.get("why_not_detected", "")
         for c in meta["checks_expected_to_detect"] or [meta["breaks_property"]]:
             env = dict(os.environ, VERIF_REPO=scratch, VERIF_EVIDENCE_DIR=scratch + "/ev", VERIF_REPLAY_DIR=scratch + "/rp")
+            if os.environ.get("RATE"):
+                # the whole batch, another seed: HOW MANY runs report the change (one run in a batch is luck)
+                env.update(VERIF_KEEP_GOING="1", VERIF_SEED=os.environ.get("RATE_SEED", "3"))
             t0 = time.time()
             p = subprocess.run(["/verif/check", c, os.environ.get("TIER", "quick")], env=env, capture_output=True, text=True, timeout=3600)
             first = [l for l in p.stdout.split("\n") if l.startswith("violation ")]
             out[c] = {"exit": p.returncode, "wall_s": round(time.time() - t0, 1),
                       "first_violation": first[0][:200] if first else ""}
+            if os.environ.get("RATE"):
+                import re
+                mm = re.search(r"runs=(\d+) .*violation_runs=(\d+)", p.stdout)
+                if mm:
+                    out[c]["runs"], out[c]["reporting_runs"] = int(mm.group(1)), int(mm.group(2))
     finally:
         shutil.rmtree(scratch, ignore_errors=True)
     return sid, out
@@ -45,7 +53,7 @@ def main():
         for sid, out in ex.map(one, ids):
             results[sid] = out
             print(sid, json.dumps(out)[:400], flush=True)
-    path = os.path.join(ROOT, "RESULTS.json")
+    path = os.path.join(ROOT, "RESULTS_RATE.json" if os.environ.get("RATE") else "RESULTS.json")
     old = json.load(open(path)) if os.path.exists(path) else {}
     old.update(results)
     json.dump(old, open(path, "w"), indent=1, sort_keys=True)
